@@ -3,6 +3,7 @@ import MaestroVerif.Model.Exec
 import MaestroVerif.Model.Sched
 import MaestroVerif.Model.Csv
 import MaestroVerif.Model.Lock
+import MaestroVerif.Model.Expand
 open MaestroVerif
 
 /-! Line-protocol driver: one operation per input line, one canonical answer line per operation. -/
@@ -245,9 +246,73 @@ def step (toks : List String) : String :=
   | _ => "bad-op"
 end CsvDrv
 
+
+namespace ExpDrv
+open Expand Subst
+
+structure St where
+  root : List Char := []
+  hash : Bool := false
+  rlimit : Nat := 0
+  params : List Param := []
+  steps : List Step := []
+  md5 : List (List Char × List Char) := []
+
+def pairs (s : String) : List (List Char × List Char) :=
+  if s.isEmpty then [] else (s.splitOn ",").filterMap fun p =>
+    match p.splitOn ":" with
+    | [a, b] => some (unhex a, unhex b)
+    | _ => none
+
+def fmtInst (i : Inst) : String :=
+  let ps := "&".intercalate (i.params.map fun kv => s!"{hex kv.1}={hex kv.2}")
+  let ex := "&".intercalate (i.extras.map fun kv => s!"{hex kv.1}={hex kv.2}")
+  s!"{hex i.name}|{hex i.nick}|{hex i.ws}|{hex i.cmd}|{hex i.restart}|{i.rlimit}|{ps}|{ex}"
+
+def fmtAssoc (l : List (List Char × List (List Char))) (sorted : Bool) : String :=
+  ";".intercalate (l.map fun e =>
+    s!"{hex e.1}:" ++ ",".intercalate ((if sorted then sortDedup e.2 else e.2).map hex))
+
+def fmtErr : Err → String
+  | .edgeSrcMissing => "RAISE:ValueError"
+  | .cycle => "RAISE:Exception"
+  | .wsBeforeGenerated => "RAISE:Exception"
+  | .keyError => "RAISE:KeyError"
+  | .recursion => "RAISE:RecursionError"
+
+def step (st : St) (toks : List String) : St × String :=
+  match toks with
+  | "exp.begin" :: rest =>
+    ({ root := unhex (kvOf rest "root"), hash := kvOf rest "hash" == "1",
+       rlimit := (kvOf rest "rlimit").toNat! }, "ok")
+  | "exp.param" :: rest =>
+    let hasT := rest.any (·.startsWith "tmpl=")
+    let p : Param := { key := unhex (kvOf rest "key"), name := unhex (kvOf rest "name"),
+                       tmpl := if hasT then some (unhex (kvOf rest "tmpl")) else none,
+                       labels := hexList (kvOf rest "labels"), values := hexList (kvOf rest "vals") }
+    ({ st with params := st.params ++ [p] }, "ok")
+  | "exp.step" :: rest =>
+    let s : Step := { name := unhex (kvOf rest "name"), cmd := unhex (kvOf rest "cmd"),
+                      restart := unhex (kvOf rest "restart"), depends := hexList (kvOf rest "deps"),
+                      texts := hexList (kvOf rest "texts"), extras := pairs (kvOf rest "extras") }
+    ({ st with steps := st.steps ++ [s] }, "ok")
+  | "exp.md5" :: rest => ({ st with md5 := st.md5 ++ pairs (rest.headD "") }, "ok")
+  | ["exp.stage"] =>
+    let spec : Spec := { root := st.root, hashWs := st.hash, rlimit := st.rlimit, params := st.params,
+                         steps := st.steps, md5 := st.md5 }
+    match stage spec id with
+    | .error e => (st, fmtErr e)
+    | .ok g =>
+      (st, s!"ok insts={";".intercalate (g.insts.map fmtInst)} adj={fmtAssoc g.adj false} deps={fmtAssoc g.deps true}")
+  | ["exp.sanitize", s] => (st, hex (sanitize (unhex s)))
+  | ["exp.safepath", base, args] => (st, hex (makeSafePath (unhex base) (hexList args)))
+  | _ => (st, "bad-op")
+end ExpDrv
+
 structure DrvState where
   dag : Dag.Dag := Dag.empty
   exec : Option ExecDrv.St := none
+  exp : ExpDrv.St := {}
 
 def stepLine (st : DrvState) (line : String) : DrvState × String :=
   let toks := (line.trimAscii.toString.splitOn " ").filter (· ≠ "")
@@ -262,6 +327,9 @@ def stepLine (st : DrvState) (line : String) : DrvState × String :=
       ({ st with exec := r.1 }, r.2)
     else if t.startsWith "sched." then (st, SchedDrv.step toks)
     else if t.startsWith "csv." || t.startsWith "lock." then (st, CsvDrv.step toks)
+    else if t.startsWith "exp." then
+      let r := ExpDrv.step st.exp toks
+      ({ st with exp := r.1 }, r.2)
     else (st, "bad-op")
 
 partial def loop (h : IO.FS.Stream) (out : IO.FS.Stream) (st : DrvState) : IO Unit := do
